@@ -267,6 +267,63 @@ R.contract(
     max_paths=20000,
 )
 
+
+# ------------------------------------------------------------------------------------------------- EngineContext.session / transport_kwargs: the configured network settings reach the transport
+ECX = "schemathesis.engine.context:"
+
+
+def _same(it, a, b):
+    from pyvc.ops import eq, is_
+
+    if a is None or b is None or isinstance(a, bool) or isinstance(b, bool) or type(a).__name__ == "SBool" or type(b).__name__ == "SBool":
+        return is_(a, b)
+    return eq(a, b)
+
+
+R.spec_funcs["same"] = _same
+R.extern["requests.Session"] = lambda it, a, k: __import__("pyvc.values", fromlist=["VObj"]).VObj(it.resolve_class("spec:RequestsSession"), {"headers": {"User-Agent": "python-requests"}, "auth": None, "proxies": {}, "verify": True, "cert": None})
+Network = Obj("schemathesis.engine.config:NetworkConfig", tls_verify=OneOf(Bool, Str), auth=OneOf(NoneT, Opq("AuthPair")), headers=OneOf(NoneT, Const({}), KeyedDict(Str, Str, sizes=(1, 2))),
+              cert=OneOf(NoneT, Str), proxy=OneOf(NoneT, Str), timeout=OneOf(NoneT, Int))
+EngCtx = lambda **kw: Obj(ECX + "EngineContext", config=Obj("schemathesis.engine.config:EngineConfig", network=Network), **kw)
+R.contract(
+    ECX + "EngineContext.session",
+    prop="C14",
+    args={"self": EngCtx(_session=NoneT)},
+    raises=[],
+    ensures={
+        # every configured credential / header / TLS setting is on the session all engine requests are sent through
+        "configured_auth_is_on_the_session": "implies(self.config.network.auth is not None, result.auth is self.config.network.auth)",
+        "every_configured_header_is_on_the_session": "implies(self.config.network.headers is not None, all(k in result.headers and result.headers[k] == self.config.network.headers[k] for k in self.config.network.headers))",
+        "tls_settings_are_on_the_session": "same(result.verify, self.config.network.tls_verify) and implies(self.config.network.cert is not None, result.cert == self.config.network.cert)",
+        "proxy_is_on_the_session": "implies(self.config.network.proxy is not None, result.proxies == {'all': self.config.network.proxy})",
+    },
+    bounded_note="up to 2 configured headers",
+    replayable=False,
+)
+R.contract(
+    ECX + "EngineContext.session",
+    variant="given",
+    prop="C14",
+    args={"self": EngCtx(_session=Opq("UserSession"))},
+    raises=[],
+    ensures={"a_session_supplied_by_the_caller_is_used_as_is": "result is self._session"},
+    replayable=False,
+)
+R.contract(
+    ECX + "EngineContext.transport_kwargs",
+    prop="C14",
+    args={"self": EngCtx(session=Opq("SessionRef"))},
+    raises=[],
+    ensures={
+        "requests_go_through_the_engine_session": "result['session'] is self.session",
+        "configured_headers_timeout_and_tls_settings_are_passed_on": "same(result['headers'], self.config.network.headers) and same(result['timeout'], self.config.network.timeout) and "
+                                                                    "same(result['verify'], self.config.network.tls_verify) and same(result['cert'], self.config.network.cert)",
+        "proxy_passed_on_iff_configured": "iff('proxies' in result, self.config.network.proxy is not None) and implies('proxies' in result, result['proxies'] == {'all': self.config.network.proxy})",
+    },
+    bounded_note="up to 2 configured headers",
+    replayable=False,
+)
+
 LEVEL_TEXT = ("Deductive: header precedence, override restriction (loop invariant over any number of parameters) and the token cache's double-checked lock "
               "under an explicit rely condition (cache havoced at lock acquisition) are postconditions on the real functions, discharged by z3.")
 LEVEL_NOTE = "Trusted: CaseInsensitiveDict, threading.Lock as synchronisation point (rely), frozen timer, pyvc semantics (E9). Free interleavings are not decided."
